@@ -2066,7 +2066,7 @@ def gen_bucket_programs(r, n):
     return progs
 
 
-def gen_bucket_shape_programs():
+def gen_bucket_shape_programs(deep=False):
     """Fixed bucket contents that random histories and random damage hit too rarely - all judged by the reference
     decoder (`mon_bucket`): a FOREIGN key's tombstone after the key's record; a byte-identical record appearing twice
     with something else in between (explicit equal times); damage confined to the FIRST line (bit 7 of the leading
@@ -2110,9 +2110,28 @@ def gen_bucket_shape_programs():
         # after it count like any others
         ("megabyte-of-garbage-lines", fr(A) + b"\n" + b"\n".join([b"garbage line %06d " % j + b"#" * 80 for j in range(11000)]) + fr(B)),
         ("megabyte-of-nul", fr(A) + b"\n" + b"\x00" * (1100 * 1024) + fr(T)),
+        # records of ANOTHER key between two records of the key (one bucket file serves every key with that SHA-1):
+        # the key's records need not be adjacent
+        ("key-foreign-key", fr(A) + fr(F) + fr(B)),
+        ("key-foreign-tombstone", fr(A) + fr(F) + fr(T)),
+        ("key-foreign-key-foreign-tombstone", fr(A) + fr(F) + fr(B) + fr(FT) + fr(T)),
+        # a line with ONE tab whose checksum field is too short (a record whose front was overwritten, a fragment that
+        # starts inside the checksum), FOLLOWED by good records: they count like any others
+        ("short-checksum-then-good", fr(A) + b"\n" + fr(B)[1:11] + b"\t" + fr(B).split(b"\t", 1)[1] + fr(B)),
+        ("short-checksum-then-tombstone", fr(A) + b"\nabc\tjunk" + fr(T)),
+        ("empty-checksum-then-good", fr(A) + b"\n\t" + fr(B).split(b"\t", 1)[1] + fr(B)),
+        ("long-checksum-then-good", fr(A) + b"\n" + b"0" * 70 + b"\tjunk" + fr(B)),
     ]
     progs = []
     bp = bucket_path(key.encode())
+    if deep:
+        # tens of thousands of records at the END of the bucket that every reader passes over (an integrity naming an
+        # algorithm this version does not know, records of another key): the lookup still answers - with the record
+        # before them.  (Short programs: the model needs half a millisecond per record and operation.)
+        for name, data in (("many-skipped-last", fr(A) + fr(ODD2) * 24000), ("many-foreign-last", fr(B) + fr(F) * 24000)):
+            ops = [f"put {bp} {hx(data)}", f"metadata s c0 {hx(key.encode())}", f"metadata a c0 {hx(key.encode())}", "list c0"]
+            progs.append(Program(f"shape-{name}", ops, tags={"bucket": data, "key": key, "look": [1, 2, 3], "ins": None,
+                                                              "damage": "shape " + name, "variety": ("shape", name)}))
     for name, data in shapes:
         ops = [f"put {bp} {hx(data)}"]
         look = []
@@ -2181,7 +2200,7 @@ def mon_bucket(rr):
                                        sig=dict(sig, op="list")))
     judge(t["bucket"], t["look"], "before append")
     ins = t["ins"]
-    if ins < len(rr.impl) and rclass(rr.impl[ins]) == "ok":
+    if ins is not None and ins < len(rr.impl) and rclass(rr.impl[ins]) == "ok":
         rec = (key, L.sri_of("sha256", b"appended"), 777, 8, None, None)
         judge(t["bucket"] + rec_frame(rec), [ins + 1, ins + 2, ins + 3], "after append")
         cat = toks(rr.impl[ins + 4]) if ins + 4 < len(rr.impl) else ["?"]
